@@ -635,7 +635,7 @@ func returnsNonNilError(ret *ssa.Return) bool {
 		}
 		// ctx.Err() returned on the non-nil edge of an earlier ctx.Err() test on the same context
 		if call.Call.IsInvoke() && call.Call.Method.Name() == "Err" {
-			return dominatedByNonNilTestOfSameCall(ret.Block(), call)
+			return dominatedByNonNilTestOfSameCall(ret.Block(), call) || dominatedByCancelledEdge(ret.Block(), unspill(call.Call.Value))
 		}
 	}
 	return dominatedByNonNilTest(ret.Block(), v)
@@ -770,6 +770,14 @@ func ruleENG4(c *Ctx) {
 }
 
 func condIsFlagOrCtx(cond ssa.Value, a *engAnchors) bool {
+	// non-blocking select on ctx.Done()
+	if bo, ok := cond.(*ssa.BinOp); ok {
+		if ex, ok := bo.X.(*ssa.Extract); ok {
+			if _, ok := ex.Tuple.(*ssa.Select); ok {
+				return true
+			}
+		}
+	}
 	if _, _, ok := condOn(cond, func(v ssa.Value) bool {
 		f, _ := fieldLoad(v)
 		return f != nil && (f == a.retracted || f == a.deleted)
@@ -813,4 +821,17 @@ func onlyErrorReturns(start *ssa.BasicBlock, loops []*Loop) bool {
 		stack = append(stack, b.Succs...)
 	}
 	return true
+}
+
+// dominatedByCancelledEdge: block b is dominated by the `cancelled` edge of a cancellation test of ctx.
+func dominatedByCancelledEdge(b *ssa.BasicBlock, ctx ssa.Value) bool {
+	for _, bb := range b.Parent().Blocks {
+		if ok, sNot := ctxTest(bb, ctx); ok {
+			cb := bb.Succs[1-sNot]
+			if cb.Dominates(b) && len(cb.Preds) == 1 {
+				return true
+			}
+		}
+	}
+	return false
 }
